@@ -8,7 +8,9 @@ EXTENDS Naturals, Integers, Sequences, FiniteSets
 CONSTANT ReplyLen     \* chunks of a complete reply (only used by the operational layer)
 
 \* ---- the behaviour catalogue
-OkLike      == {"ok0", "ok1", "ok2", "okinfo", "okwarn", "oksource"}   \* valid reply with 0..2 files; with one file and a diagnostic (info / warning / naming its source)
+\* valid reply with 0..2 files; with one file and a diagnostic (info / warning / naming its source); with one file whose path is
+\* one byte long / starts with a three-byte character
+OkLike      == {"ok0", "ok1", "ok2", "okinfo", "okwarn", "oksource", "okshort", "okwide"}
 NotStarted  == {"missing", "noexec"}                  \* cannot be spawned
 \* "replykill" / "replyabrt": a complete, valid reply is written and flushed, then the generator dies from a signal
 ExitsBadly  == {"exit1", "exit255", "sigkill", "sigsegv", "replykill", "replyabrt"}
@@ -20,7 +22,7 @@ BadReply    == {"trunc1", "truncmid", "trunclast", "truncat", "badbool", "badlev
 \* then writes more than a pipe buffer of output that is no reply
 Catalogue   == OkLike \cup NotStarted \cup ExitsBadly \cup BadReply \cup {"stderr0", "noread", "closeflood"}
 ReadsAll(b) == b \in OkLike \cup ExitsBadly \cup BadReply \cup {"stderr0"}
-NFilesOf(b) == CASE b \in {"ok1", "okinfo", "okwarn", "oksource"} -> 1 [] b = "ok2" -> 2 [] OTHER -> 0
+NFilesOf(b) == CASE b \in {"ok1", "okinfo", "okwarn", "oksource", "okshort", "okwide"} -> 1 [] b = "ok2" -> 2 [] OTHER -> 0
 \* how many reply chunks a behaviour writes before exiting
 ReplyChunks(b) == CASE b \in OkLike \cup BadStrings \cup {"badbool", "badlevel", "hugesize", "replykill", "replyabrt"} -> ReplyLen
                     [] b \in {"trunc1", "truncmid", "trunclast", "truncat"} -> ReplyLen - 1
